@@ -38,6 +38,16 @@ CHECKS = {
         "round trip over all unit systems x exponents -9..9 x any finite double must be bit-identical.",
         "Trusts vlib/unitgrammar.py (written from documentation/using_quantities_with_units.rst) and "
         "vlib/si.py. Text the documentation neither allows nor lists as wrong is not asserted."),
+    "C01": (
+        "Hypothesis model-based generation of whole systems; reference rate law computed from the spec; "
+        "3-way differential (kinetics functions / make_dxdtf / one native Euler step)",
+        "Exploration. Generated systems (networks x grid/graph spaces x states x a unit system per nesting "
+        "level, via constructors or dictionary readers) are evaluated by the Python kinetics functions, by "
+        "the exported ODE right-hand side and by one step of the freshly compiled Euler engine; every entry "
+        "is compared with an independent reference law computed in SI from the spec, and the three are "
+        "compared with each other; returned dimensions must be amount/time.",
+        "Trusts vlib/ratelaw.py, vlib/si.py and the spec->object builder vlib/build_model.py. Tolerance 1e-9 "
+        "x sum of |terms| per entry. No chemostats (C03). Engine library is rebuilt from /repo's working tree."),
 }
 
 NOT_BUILT = "check not built yet in this working session (planned; DESIGN.md section 4)"
